@@ -39,10 +39,11 @@ ModelsOf(grp, G, seed) ==
            seed)]
 
 OutTerm(r) == IF r.out.k = "expr" /\ "e" \in DOMAIN r.out THEN {r.out.e} ELSE {}
-RecTerms(r) ==
+RecTerms(r, grp_n) ==
   CASE r.k = "do"  -> OutTerm(r) \cup {TruthDo(ToSet(r.x), ToSet(r.y), 0)}
     [] r.k = "cdo" -> OutTerm(r) \cup {TruthCDo(ToSet(r.x), ToSet(r.y), ToSet(r.z), 0)}
     [] r.k = "eq"  -> {r.a, r.b}
+    [] r.k = "q"   -> OutTerm(r) \cup {TruthDo(ToSet(grp_n) \ ToSet(r.s), ToSet(r.s), 0)}
     [] OTHER -> {}
 
 \* compare two terms on every seed; result summarises all seeds
@@ -101,8 +102,17 @@ JudgeVocab(G, r) ==
   ELSE IF ObsOnly(r.out.e, G.n) THEN Verdict(r.id, TRUE, "ok", NoCmp)
   ELSE Verdict(r.id, FALSE, "vocabulary", NoCmp)
 
+\* c-factor records (C17): out must denote Q[s] = P(s | do(V \ s)), or be the documented failure
+JudgeQ(G, Ws, r) ==
+  CASE r.out.k = "exc" -> Verdict(r.id, FALSE, "other-failure", NoCmp)
+    [] r.out.k = "unident" -> Verdict(r.id, TRUE, "refused", NoCmp)
+    [] r.out.k = "expr" ->
+         IF "unser" \in DOMAIN r.out THEN Verdict(r.id, FALSE, "vocabulary", NoCmp)
+         ELSE SemClause(r.id, Ws, r.out.e, TruthDo(G.n \ ToSet(r.s), ToSet(r.s), 0))
+
 Judge(G, Ws, r) ==
   CASE r.k = "do"  -> JudgeDo(G, Ws, r)
+    [] r.k = "q"   -> JudgeQ(G, Ws, r)
     [] r.k = "vocab" -> JudgeVocab(G, r)
     [] r.k = "cdo" -> JudgeCDo(G, Ws, r)
     [] r.k = "eq"  -> JudgeEq(G, Ws, r)
@@ -110,7 +120,7 @@ Judge(G, Ws, r) ==
 JudgeGroup(grp) ==
   LET G   == GraphOf(grp)
       sd  == SetToSeq(Seeds)
-      dos == UNION {UNION {Dos(t) : t \in RecTerms(grp.recs[i])} : i \in DOMAIN grp.recs}
+      dos == UNION {UNION {Dos(t) : t \in RecTerms(grp.recs[i], grp.n)} : i \in DOMAIN grp.recs}
       Ws  == TLCEval([k \in DOMAIN sd |-> Bundle(ModelsOf(grp, G, sd[k]), dos)])
   IN [i \in DOMAIN grp.recs |-> Judge(G, Ws, grp.recs[i])]
 
